@@ -145,7 +145,15 @@ class DocGen:
             if any(m in self.s.excluded_by(o) or o in self.s.excluded_by(m) for o in out):
                 continue
             out.append(m)
-        return [self.mark(m) for m in out]
+        res = [self.mark(m) for m in out]
+        # a mark type that does not exclude itself may occur twice (comment threads): sometimes add a second instance
+        for m in list(out):
+            if m not in self.s.excluded_by(m) and self.s.marks[m]["attrs"] and self.rng.random() < 0.4:
+                extra = self.mark(m)
+                if all(extra != r for r in res):
+                    k = max(i for i, r in enumerate(res) if r["t"] == m)
+                    res.insert(k + 1, extra)
+        return res
 
     # ---- content
     def type_seq(self, e, depth):
